@@ -23,7 +23,7 @@ ASSUMPTIONS = ['inputs more than 1 (quick) / 2 (thorough) edits from every seed 
                'reachable by the seam (modules consulted are listed in clock_readers)']
 
 
-SPLIT = {'stdnum.mac': 12}      # slow validator (registry scan with validate_manufacturer): states spread over work items
+SPLIT = {'stdnum.mac': 12, 'stdnum.gs1_128': 12}      # slow validator (registry scan with validate_manufacturer): states spread over work items
 
 
 def plan(ctx):
